@@ -51,7 +51,7 @@ import (
 )
 
 var kmsKeyTypes = map[string]kmsapi.KeyType{
-	"ed25519": kmsapi.ED25519Type, "p256der": kmsapi.ECDSAP256TypeDER, "p256": kmsapi.ECDSAP256TypeIEEEP1363,
+	"ed25519": kmsapi.ED25519Type, "ed25519seed": kmsapi.ED25519Type, "p256der": kmsapi.ECDSAP256TypeDER, "p256": kmsapi.ECDSAP256TypeIEEEP1363,
 	"p384": kmsapi.ECDSAP384TypeIEEEP1363, "p521": kmsapi.ECDSAP521TypeIEEEP1363,
 	"x25519kw": kmsapi.X25519ECDHKWType, "p256kw": kmsapi.NISTP256ECDHKWType, "p384kw": kmsapi.NISTP384ECDHKWType,
 	"p521kw": kmsapi.NISTP521ECDHKWType,
@@ -59,7 +59,7 @@ var kmsKeyTypes = map[string]kmsapi.KeyType{
 	"bbs": kmsapi.BLS12381G2Type, "secp256k1": kmsapi.ECDSASecp256k1TypeIEEEP1363,
 }
 
-var kmsAsymmetric = map[string]bool{"ed25519": true, "p256der": true, "p256": true, "p384": true, "p521": true,
+var kmsAsymmetric = map[string]bool{"ed25519": true, "ed25519seed": true, "p256der": true, "p256": true, "p384": true, "p521": true,
 	"x25519kw": true, "p256kw": true, "p384kw": true, "p521kw": true, "bbs": true, "secp256k1": true}
 
 // recKMSStore: the spi/kms.Store given to localkms: records every Put, can freeze.
@@ -523,6 +523,15 @@ func kmsShortCoord(k *ecdsa.PrivateKey) *ecdsa.PrivateKey {
 	return &ecdsa.PrivateKey{PublicKey: ecdsa.PublicKey{Curve: k.Curve, X: x, Y: y}, D: d}
 }
 
+// kmsNamedID: caller-chosen key ids as agents choose them: short names, and DID URLs (longer than any generated id) that
+// share everything but their last characters
+func kmsNamedID(n int) string {
+	if n%2 == 0 {
+		return fmt.Sprintf("imported-%d", n)
+	}
+	return fmt.Sprintf("did:example:verif-organisation-with-a-long-method-specific-id#key-%d", n)
+}
+
 func kmsImportable(kt string) (interface{}, bool) {
 	key, ok := kmsImportableRaw(kt)
 	if ek, isEC := key.(*ecdsa.PrivateKey); ok && isEC && kmsImportCounter%3 == 0 {
@@ -539,6 +548,10 @@ func kmsImportableRaw(kt string) (interface{}, bool) {
 	switch kt {
 	case "ed25519":
 		return ed25519.NewKeyFromSeed(seed[:32]), true
+	case "ed25519seed":
+		// the 32-byte SEED handed over as the private key (a caller that keeps seeds): whatever the import makes of it, the
+		// seed is a secret
+		return ed25519.PrivateKey(append([]byte{}, seed[:32]...)), true
 	case "p256", "p256der", "p256kw":
 		k, err := ecdsa.GenerateKey(elliptic.P256(), bytes.NewReader(append(seed, seed...)))
 		return k, err == nil
@@ -619,7 +632,7 @@ func kmsRun(input string, c06 bool) string {
 			var opts []kmsapi.PrivateKeyOpts
 			switch f[2] {
 			case "id":
-				opts = append(opts, kmsapi.WithKeyID(fmt.Sprintf("imported-%d", len(keys))))
+				opts = append(opts, kmsapi.WithKeyID(kmsNamedID(len(keys))))
 			case "dupid":
 				if len(keys) > 0 {
 					opts = append(opts, kmsapi.WithKeyID(keys[0].id))
@@ -628,13 +641,17 @@ func kmsRun(input string, c06 bool) string {
 			// the harness generated this key: its secret bytes are known whatever the call returns
 			switch pk := priv.(type) {
 			case ed25519.PrivateKey:
-				importedSecrets = append(importedSecrets, append([]byte{}, pk.Seed()...))
+				if len(pk) == ed25519.PrivateKeySize {
+					importedSecrets = append(importedSecrets, append([]byte{}, pk.Seed()...))
+				} else {
+					importedSecrets = append(importedSecrets, append([]byte{}, pk...))
+				}
 			case *ecdsa.PrivateKey:
 				importedSecrets = append(importedSecrets, pk.D.Bytes())
 			}
 			id, _, e := k.ImportPrivateKey(priv, kmsKeyTypes[f[1]], opts...)
 			noteErr(e)
-			if e == nil && f[2] == "id" && id != fmt.Sprintf("imported-%d", len(keys)) {
+			if e == nil && f[2] == "id" && id != kmsNamedID(len(keys)) {
 				// the caller chose an id: that is the id the key has to be under
 				keys = append(keys, &kmsKey{id: id, kt: f[1] + "/named", live: true})
 				returns = append(returns, []byte(id))
@@ -957,6 +974,10 @@ func kmsGen(r *Rng, tier string, c06 bool) []string {
 			case c < 8:
 				ops = append(ops, "import "+r.Pick([]string{"ed25519", "p256", "p384", "p256der", "secp256k1"})+" "+r.Pick([]string{"id", "noid", "noid", "dupid"}))
 				nk++
+				if !c06 && r.N(6) == 0 {
+					ops = append(ops, "import ed25519seed noid", fmt.Sprintf("export %d", nk))
+					nk++
+				}
 			case c < 10 && nk > 0:
 				ops = append(ops, fmt.Sprintf("rotate %d", r.N(nk)))
 				nk++
